@@ -30,6 +30,8 @@ type histCase struct {
 	Goroutines int     `json:"goroutines"`
 	OpsPer     int     `json:"ops_per"`
 	Keys       int     `json:"keys"`
+	Focus      string  `json:"focus,omitempty"`  // operation under test (directed / spin families)
+	Family     string  `json:"family,omitempty"` // how the history was produced
 	Ops        []opRec `json:"ops"`
 }
 
@@ -412,7 +414,15 @@ func (c *ctx) checkHistory(h histCase, sample bool) {
 	}
 	goLin := linearizable(h.Obj, h.Ops)
 	if !goLin {
-		c.res.Violate("not-linearizable-"+h.Obj, "recorded concurrent history of "+h.Obj+" has no linearization", h)
+		id, what := "not-linearizable-"+h.Obj, "recorded concurrent history of "+h.Obj+" has no linearization"
+		if b := blame(h); b != "" {
+			id += "-" + b
+			what += "; it has one without its " + b + " operations: " + b + " answered with something that was never the container's content at any instant of the call"
+		}
+		if h.Family != "" {
+			what += " (family: " + h.Family + ")"
+		}
+		c.res.Violate(id, what, h)
 	}
 	c.pendHist = append(c.pendHist, pendHist{h, w, goLin, "impl history"})
 	if len(c.pendHist) >= 500 {
